@@ -50,6 +50,7 @@ _np = _ops = _session = _journal = None
 _sess = None
 _ds = None
 _count = 0
+RECYCLE = 16      # cases per BytesIO-backed dataset (the in-memory HDF5 image is never shrunk: keep it small)
 _cache = {}
 
 
@@ -90,6 +91,17 @@ def warmup():
     _cache.clear()
 
 
+def _trim():
+    # every indexed-string field allocates 4.5 MB of write buffers; without returning freed arenas to the OS the
+    # resident size of a worker grows by ~3 MB per case (observed: OOM kill after a few thousand cases)
+    import gc, ctypes
+    gc.collect()
+    try:
+        ctypes.CDLL('libc.so.6').malloc_trim(0)
+    except Exception:
+        pass
+
+
 def _str(bs):
     return bytes(bs).decode('ascii')
 
@@ -111,15 +123,16 @@ def _run_table(case):
     global _sess, _ds, _count
     np, s_mod, journal = _np, _session, _journal
     from io import BytesIO
-    if _sess is None or _count % 200 == 0:
+    if _sess is None or _count % RECYCLE == 0:
         if _sess is not None:
             try:
                 _sess.close()
             except Exception:
                 pass
+        _cache.clear()
+        _trim()
         _sess = s_mod.Session()
         _ds = _sess.open_dataset(BytesIO(), 'w', 'd')
-        _cache.clear()
     _count += 1
     s, ds = _sess, _ds
     tag = str(_count)
